@@ -80,10 +80,18 @@ func c48AddFinal(rng *vrng, mi *index.MasterIndex, universe int, types []restic.
 	mi.Insert(idx)
 }
 
-func c48Scenario(c *vctx, rng *vrng, kind string, types []restic.BlobType, universe, nops int, grow, unmerged bool) error {
+func c48Scenario(c *vctx, rng *vrng, kind string, types []restic.BlobType, universe, nops int, grow, unmerged, straddle bool) error {
 	mi := index.NewMasterIndex()
-	for i := 0; i < rng.intn(3); i++ {
-		c48AddFinal(rng, mi, universe, types, rng.intn(universe+2))
+	nfinal := rng.intn(3)
+	if straddle {
+		nfinal = 1 + rng.intn(2)
+	}
+	for i := 0; i < nfinal; i++ {
+		n := rng.intn(universe + 2)
+		if straddle {
+			n = universe/2 + 1 + rng.intn(universe)
+		}
+		c48AddFinal(rng, mi, universe, types, n)
 	}
 	if err := mi.MergeFinalIndexes(); err != nil {
 		return err
@@ -99,16 +107,29 @@ func c48Scenario(c *vctx, rng *vrng, kind string, types []restic.BlobType, unive
 			return err
 		}
 	}
-	if unmerged { // an index that is not merged: blobIndex() does not see it, Values() does
-		idx := index.NewIndex()
-		var packID restic.ID
-		copy(packID[:], rng.bytes(32))
-		var blobs pack.Blobs
-		for i := 0; i < 1+rng.intn(universe); i++ {
-			blobs = append(blobs, pack.Blob{BlobHandle: c48Handle(uint64(rng.intn(universe+5)), types[rng.intn(len(types))]), Offset: uint(40 * i), Length: 40})
+	var late []restic.BlobHandle // handles of the entries in the not merged (in-memory) indexes
+	if unmerged { // indexes that are not merged: blobIndex() does not see them, Values() does
+		nidx := 1
+		if straddle {
+			nidx = 1 + rng.intn(2)
 		}
-		idx.StorePack(packID, blobs)
-		mi.Insert(idx)
+		for j := 0; j < nidx; j++ {
+			idx := index.NewIndex()
+			var packID restic.ID
+			copy(packID[:], rng.bytes(32))
+			var blobs pack.Blobs
+			span := universe + 5
+			if straddle { // mostly blobs that idx[0] already holds: duplicates straddling sub-indexes
+				span = universe + 1
+			}
+			for i := 0; i < 1+rng.intn(universe); i++ {
+				bh := c48Handle(uint64(rng.intn(span)), types[rng.intn(len(types))])
+				late = append(late, bh)
+				blobs = append(blobs, pack.Blob{BlobHandle: bh, Offset: uint(40 * i), Length: 40})
+			}
+			idx.StorePack(packID, blobs)
+			mi.Insert(idx)
+		}
 	}
 	var ops []c48Op
 	for i := 0; i < nops; i++ {
@@ -124,6 +145,15 @@ func c48Scenario(c *vctx, rng *vrng, kind string, types []restic.BlobType, unive
 			v := uint8(1 + rng.intn(9))
 			ops = append(ops, c48Op{bh: bh, v: v})
 			a.Set(bh, v)
+		}
+	}
+	if straddle { // make most of the straddling blobs members
+		for _, bh := range late {
+			if rng.chance(75) {
+				v := uint8(1 + rng.intn(9))
+				ops = append(ops, c48Op{bh: bh, v: v})
+				a.Set(bh, v)
+			}
 		}
 	}
 	other := restic.NewBlobSet()
@@ -185,18 +215,56 @@ func c48Scenario(c *vctx, rng *vrng, kind string, types []restic.BlobType, unive
 		sort.Slice(oth, func(i, j int) bool { return oth[i] < oth[j] })
 		ia, _ := c48All(inter, t)
 		sa, _ := c48All(sub, t)
-		term := fmt.Sprintf("C48m.mk %s %s %s %s %s %s %s %s %s %s", c48Ns(main), c48Ns(rest), coqNat(int(caps[t])),
+		term := fmt.Sprintf("K1 (C48m.mk %s %s %s %s %s %s %s %s %s %s)", c48Ns(main), c48Ns(rest), coqNat(int(caps[t])),
 			coqList(opT), coqN(uint64(total-otherCnt)), c48Pairs(all), coqList(gets), c48Ns(oth), c48Pairs(ia), c48Pairs(sa))
 		c.Hist(fmt.Sprintf("dups=%d", min(dups, 3)))
 		c.Hist(fmt.Sprintf("members=%d", min(len(all), 5)))
 		c.Case(kind, dups > 0 && len(all) >= 2, len(main)+len(rest)+len(opT),
 			term, fmt.Sprintf("type=%v main=%v rest=%v cap=%d ops=%d -> len=%d all=%v", t, main, rest, caps[t], len(opT), total-otherCnt, all))
 	}
+	if len(types) == 2 { // the whole mixed-type set, entries in the real enumeration order
+		h2 := func(bh restic.BlobHandle) string {
+			return fmt.Sprintf("(%s,%d%%N)", coqBool(bh.Type == restic.TreeBlob), c48Key(bh))
+		}
+		n0 := int(index.VerifC48StableLen(mi, restic.DataBlob) + index.VerifC48StableLen(mi, restic.TreeBlob))
+		var main2, rest2 []string
+		straddles := 0
+		firstSub := map[restic.BlobHandle]bool{}
+		for pb := range mi.Values() {
+			h := pb.Handle()
+			if len(main2) < n0 {
+				main2 = append(main2, h2(h))
+				firstSub[h] = true
+			} else {
+				rest2 = append(rest2, h2(h))
+				if firstSub[h] && a.Has(h) {
+					straddles++
+				}
+			}
+		}
+		var op2 []string
+		for _, o := range ops {
+			if o.del {
+				op2 = append(op2, "ODel2 "+h2(o.bh))
+			} else {
+				op2 = append(op2, fmt.Sprintf("OSet2 %s %d%%N", h2(o.bh), o.v))
+			}
+		}
+		var all2 []string
+		for bh, v := range a.All() {
+			all2 = append(all2, fmt.Sprintf("(%s,%d%%N)", h2(bh), v))
+		}
+		c.Hist(fmt.Sprintf("straddling-members=%d", min(straddles, 3)))
+		c.Case(kind+"-whole", straddles > 0, len(main2)+len(rest2)+len(op2),
+			fmt.Sprintf("K2 (C48m.mk2 %s %s %s %s %s %s %s)", coqList(main2), coqList(rest2), coqNat(int(caps[restic.DataBlob])), coqNat(int(caps[restic.TreeBlob])),
+				coqList(op2), coqN(uint64(total)), coqList(all2)),
+			fmt.Sprintf("idx0=%d other=%d ops=%d straddling members=%d -> len=%d all=%d", len(main2), len(rest2), len(op2), straddles, total, len(all2)))
+	}
 	return nil
 }
 
 func engineC48(c *vctx) error {
-	c.Header("Model.C48m", "C48m.case", "C48m.check_case")
+	c.Header("Model.C48m", "C48m.anycase", "C48m.check_any")
 	c.Preamble("Import C48m.")
 	data := []restic.BlobType{restic.DataBlob}
 	tree := []restic.BlobType{restic.TreeBlob}
@@ -219,7 +287,31 @@ func engineC48(c *vctx) error {
 			kind += "+unmerged"
 		}
 		universe := 1 + rng.intn(7)
-		if err := c48Scenario(c, rng, kind, types, universe, rng.intn(16), grow, unmerged); err != nil {
+		if err := c48Scenario(c, rng, kind, types, universe, rng.intn(16), grow, unmerged, false); err != nil {
+			return err
+		}
+	}
+	// duplicates of members straddling the merged idx[0] and the in-memory indexes, with entries of
+	// the other blob type enumerated in between
+	for r := 0; r < c.n(16, 300); r++ {
+		rng := c.rng.fork()
+		grow := rng.chance(30)
+		kind := "mixed+straddle"
+		if grow {
+			kind += "+grow"
+		}
+		if err := c48Scenario(c, rng, kind, both, 2+rng.intn(8), rng.intn(10), grow, true, true); err != nil {
+			return err
+		}
+	}
+	// large indexes: more than 64 blobs per type, duplicates at all first-index positions
+	for r := 0; r < c.n(3, 30); r++ {
+		rng := c.rng.fork()
+		types, kind := both, "mixed+big"
+		if r%3 == 2 {
+			types, kind = data, "data+big"
+		}
+		if err := c48Scenario(c, rng, kind, types, 100+rng.intn(60), 40+rng.intn(60), rng.chance(30), true, true); err != nil {
 			return err
 		}
 	}
